@@ -65,7 +65,15 @@ def run(ctx):
         if not any(ids for p in plans for _, ids in p):
             plans[0][0][1] = [nxt, nxt + 1]; nxt += 2
         delays = [rng.choice([0, 0, 0.002, 0.01]) for _ in range(k)]
-        cases.append({"fmt": ["fb", "npz", "tfrec"][i % 3], "eps": eps, "plans": plans, "delays": delays})
+        c = {"fmt": ["fb", "npz", "tfrec"][i % 3], "eps": eps, "plans": plans, "delays": delays}
+        if i % 2 == 1:
+            # a second call into the same dataset: its splits already hold the first call's writer directories
+            k2 = rng.choice([1, 2, 3]); plans2 = []
+            for w in range(k2):
+                n = rng.choice([1, eps, eps + 1, 2 * eps + 1])
+                plans2.append([[rng.randrange(3), list(range(nxt, nxt + n))]]); nxt += n
+            c.update({"plans2": plans2, "delays2": [rng.choice([0, 0.002]) for _ in range(k2)], "reopen": rng.random() < 0.5})
+        cases.append(c)
     # more writers than CPU cores (every writer must still run, in its own process slot or queued)
     import os
     kbig = (os.cpu_count() or 4) + 2
@@ -80,9 +88,15 @@ def run(ctx):
         if "error" in resp or "error" in ress:
             ctx.report(dict(sig, kind="call-error"), f"write_multiprocessing failed: parallel={resp.get('error')} single={ress.get('error')}", {"case": c}); continue
         # return values in argument order
-        exp_first = [p[0][1][0] if p and p[0][1] else -1 for p in c["plans"]]
-        if len(resp["returns"]) != len(c["plans"]) or [r[2] for r in resp["returns"]] != exp_first or [r[1] for r in resp["returns"]] != [sum(len(ids) for _, ids in p) for p in c["plans"]]:
-            ctx.report(dict(sig, kind="return-order"), f"return values {resp['returns']} are not in argument order", {"case": c}); continue
+        bad_ret = False
+        for plans_k, rets in ((c["plans"], resp["returns"]), (c.get("plans2"), resp.get("returns2"))):
+            if plans_k is None: continue
+            exp_first = [p[0][1][0] if p and p[0][1] else -1 for p in plans_k]
+            if rets is None or len(rets) != len(plans_k) or [r[2] for r in rets] != exp_first or [r[1] for r in rets] != [sum(len(ids) for _, ids in p) for p in plans_k]:
+                ctx.report(dict(sig, kind="return-order"), f"return values {rets} are not in argument order", {"case": c}); bad_ret = True
+        if bad_ret: continue
+        all_plans = c["plans"] + (c.get("plans2") or [])
+        all_returns = resp["returns"] + (resp.get("returns2") or [])
         # recount oracle on the parallel result + check()
         problems, per_split = T.recount(rootp)
         try:
@@ -95,33 +109,34 @@ def run(ctx):
         if per_split != per_split_s:
             ctx.report(dict(sig, kind="differs-from-sequential"), f"parallel run reads {per_split}, single-process run reads {per_split_s}", {"case": c}); continue
         for s in range(3):
-            want = [v for p in c["plans"] for sp_, ids in p if sp_ == s for v in ids]
+            want = [v for p in all_plans for sp_, ids in p if sp_ == s for v in ids]
             if collections.Counter(per_split.get(s, [])) != collections.Counter(want):
                 ctx.report(dict(sig, kind="multiset"), f"split {s}: read {per_split.get(s)} written {want}", {"case": c}); break
-            for p in c["plans"]:     # each writer's examples in its own order
+            for p in all_plans:     # each writer's examples in its own order
                 mine = [v for sp_, ids in p if sp_ == s for v in ids]
                 if [x for x in per_split.get(s, []) if x in set(mine)] != mine:
                     ctx.report(dict(sig, kind="writer-order"), f"split {s}: writer order {mine} not preserved in {per_split.get(s)}", {"case": c}); break
         # per-process write sets: workers pairwise disjoint, each inside one writer directory
-        worker_pids = {str(r[0]) for r in resp["returns"]} - {str(resp["pid"])}
+        worker_pids = {str(r[0]) for r in all_returns} - {str(resp["pid"])}
         wsets = {pid: set(w) for pid, w in writes.items() if pid in worker_pids}
         for pa in wsets:
             for pb in wsets:
                 if pa < pb and wsets[pa] & wsets[pb]:
                     ctx.report(dict(sig, kind="shared-file"), f"worker processes {pa} and {pb} both wrote {sorted(wsets[pa] & wsets[pb])[:3]}", {"case": c})
-        by_pid_first = {str(r[0]): idx for idx, r in reversed(list(enumerate(resp["returns"])))}
+        by_pid_first = {str(r[0]): idx for idx, r in reversed(list(enumerate(all_returns)))}
         for pid, w in wsets.items():
-            own = {f"w{j + 1:08d}" + "0" * 23 for j, r in enumerate(resp["returns"]) if str(r[0]) == pid}
+            own = {f"w{j + 1:08d}" + "0" * 23 for j, r in enumerate(all_returns) if str(r[0]) == pid}
             for path in w:
                 parts = Path(path).parts
                 if len(parts) < 2 or parts[1] not in own:
                     ctx.report(dict(sig, kind="outside-own-dir"), f"worker {pid} wrote {path} outside its own directories {sorted(own)}", {"case": c}); break
         # correspondence with M-TREE: one session made of all writers' closed shards
-        snap = T.snapshot(rootp)
-        closed = [(list(d), l["files"]) for d, l in snap.items() if l["files"]]
-        rec = {"closed": closed, "snap": {json.dumps(list(k)): v for k, v in snap.items()}}
-        req, ids, dirs = T.model_request([rec], 0)
-        reqs.append(req); meta.append((c, rec, ids, dirs))
+        if not c.get("plans2"):
+            snap = T.snapshot(rootp)
+            closed = [(list(d), l["files"]) for d, l in snap.items() if l["files"]]
+            rec = {"closed": closed, "snap": {json.dumps(list(k)): v for k, v in snap.items()}}
+            req, ids, dirs = T.model_request([rec], 0)
+            reqs.append(req); meta.append((c, rec, ids, dirs))
         distinct.add((c["fmt"], len(c["plans"]), len(worker_pids), sum(1 for d in c["delays"] if d) > 0))
         nok += 1
         shutil.rmtree(rootp, ignore_errors=True); shutil.rmtree(roots, ignore_errors=True)
